@@ -275,6 +275,10 @@ func (t *tracker) process(d D) {
 		case !t.live[cl]:
 			t.fail("closed:not-open", fmt.Sprintf("%s was reported closed but was not open before the call (already closed, discarded or never opened)", t.name(cl)))
 			return
+		case !listed(before, cl) && t.inf[cl].typ != 0x13:
+			// (the pending breakaway of a blackout is open without being listed; nothing else is)
+			t.fail("closed:not-listed-as-open", fmt.Sprintf("%s was reported closed but Open() did not list it immediately before the call: %s", t.name(cl), t.names(before)))
+			return
 		case !d.CanClose(cl):
 			t.fail("closed:not-closable", fmt.Sprintf("%s was reported closed by %s but the closing rules do not allow it", t.name(cl), i))
 			return
@@ -327,6 +331,15 @@ func (t *tracker) process(d D) {
 	t.checkOpen(after, call)
 }
 
+func listed(l []D, d D) bool {
+	for _, x := range l {
+		if x == d {
+			return true
+		}
+	}
+	return false
+}
+
 func (t *tracker) close(d D) {
 	if t.dead {
 		return
@@ -364,6 +377,10 @@ func (t *tracker) close(d D) {
 	for _, cl := range closed {
 		if cl == nil || !t.live[cl] {
 			t.fail("close:closed-not-open", fmt.Sprintf("Close reported %s closed but it was not open before the call", t.name(cl)))
+			return
+		}
+		if !listed(before, cl) && t.inf[cl].typ != 0x13 {
+			t.fail("close:closed-not-listed-as-open", fmt.Sprintf("Close reported %s closed but Open() did not list it immediately before the call: %s", t.name(cl), t.names(before)))
 			return
 		}
 		if !d.Equal(cl) {
@@ -692,15 +709,19 @@ func piled(c *mon.Ctx, r *gen.Rand) {
 	t.finish("piled")
 }
 
-// deep builds an open list of 60..200 descriptors (types that nothing closes, and repeated breakaways)
+// deep builds an open list of 60..600 descriptors (below, at and above 64, 128, 256 and 512) (types that nothing closes, and repeated breakaways)
 // before the usual mix of calls: no bound on the number of descriptors open at once is part of the contract.
 func deep(c *mon.Ctx, r *gen.Rand) {
 	t := newTracker(c)
 	pts := uint64(1000)
-	n := r.PickInt([]int{60, 63, 64, 65, 66, 100, 127, 128, 129, 130, 200})
+	n := r.PickInt([]int{60, 63, 64, 65, 66, 100, 127, 128, 129, 130, 200, 254, 255, 256, 257, 258, 300, 400, 513, 600})
+	calm := r.Bool() // only types that stay open: the list really gets that long
 	for i := 0; i < n && !t.dead; i++ {
 		pts = (pts + 100) & (1<<33 - 1)
 		typ := r.PickByte([]byte{0x01, 0x01, 0x17, 0x17, 0x17, 0x13, 0x19, 0x14})
+		if calm {
+			typ = r.PickByte([]byte{0x17, 0x17, 0x17, 0x17, 0x17, 0x17, 0x17, 0x01})
+		}
 		d := mk(typ, uint32(1+r.Intn(2)), pts, true, 1, 1)
 		t.register(d, typ, d.EventID(), pts, true)
 		t.process(d)
@@ -708,7 +729,25 @@ func deep(c *mon.Ctx, r *gen.Rand) {
 			t.probe()
 		}
 	}
+	if calm && !t.dead {
+		// ... and then the programme breaks away (and comes back) with all of them open
+		c.Count("deep.breakaway_with_the_whole_list_open")
+		for _, typ := range []byte{0x13, 0x17, 0x14}[:1+r.Intn(3)] {
+			pts = (pts + 100) & (1<<33 - 1)
+			d := mk(typ, uint32(1+r.Intn(2)), pts, true, 1, 1)
+			t.register(d, typ, d.EventID(), pts, true)
+			t.process(d)
+			t.probe()
+			if len(t.all) > 0 && r.Chance(3) {
+				t.close(t.all[r.Intn(len(t.all))])
+				t.probe()
+			}
+		}
+	}
 	t.pat["open-list-of-60-or-more"] = true
+	if n >= 256 {
+		c.Count("deep.histories_of_256_or_more_calls")
+	}
 	for i := 0; i < 12 && !t.dead; i++ {
 		pts = (pts + 100) & (1<<33 - 1)
 		switch r.Intn(4) {
@@ -896,5 +935,7 @@ func run(c *mon.Ctx) {
 	c.Floor("piled.histories", 3000)
 	c.Stream("piled", c.N(12000, 6000000), func(i int, r *gen.Rand) { piled(c, r) })
 	c.Stream("interleaved", c.N(10000, 5000000), func(i int, r *gen.Rand) { interleaved(c, r) })
+	c.Floor("deep.histories_of_256_or_more_calls", 60)
+	c.Floor("deep.breakaway_with_the_whole_list_open", 100)
 	c.Stream("deep", c.N(300, 60000), func(i int, r *gen.Rand) { deep(c, r) })
 }
